@@ -212,7 +212,11 @@ PARAM_WORDS = ('note=1', 'note=', 'note', '=1', 'note=abc', 'note=128',
                'data=x(1,2)', 'skip_checks=1', 'skip_checks=0', 'note=999',
                # values equal to the defaults
                'channel=0', 'velocity=64', 'note=0', 'time=0', 'pos=0',
-               'pitch=0', 'time=0.0', 'velocity=064')
+               'pitch=0', 'time=0.0', 'velocity=064',
+               # one parenthesis only / parentheses around nothing usable
+               'data=(12', 'data=12)', 'data=(1', 'data=1)', 'data=(',
+               'data=)', 'data=((1))', 'data=(1)(2)', 'data=()()', 'data=(1 ',
+               'data=x1)', 'data=(1x')
 
 
 def ref_parse_line(text):
